@@ -67,6 +67,15 @@ def evaluate(case):
         fails.append(f"lorch transform differs from plain transform of pre-multiplied data by {relerr(v0, vp, scale=sc):.3g}")
     if dy is not None and relerr(e0, ep, scale=float(np.abs(dy).max()) * float(hi - x.min()) + 1e-300) > 1e-9:
         fails.append("lorch uncertainty differs from plain uncertainty of pre-multiplied input uncertainty")
+    # "for all data": integer-typed data (counts) are damped like the same numbers stored as floats
+    yi = np.rint(y * 3)
+    try:
+        _, vi, ei = t.fourier_transform(x, yi.astype(np.int64), xo, xmax=xmax, dy_in=dy, lorch=True)
+        _, vf, ef = t.fourier_transform(x, yi, xo, xmax=xmax, dy_in=dy, lorch=True)
+        if relerr(vi, vf, scale=3 * sc + 1e-300) > 1e-12 or relerr(ei, ef) > 1e-12:
+            fails.append("fourier_transform(lorch=True): integer-typed data give a different (truncated window) result than the same values as floats")
+    except Exception as ex:  # noqa: BLE001
+        fails.append(f"fourier_transform(lorch=True): integer-typed data raise {type(ex).__name__}")
     # "regardless of what the process computed before the call": the same Transformer first damps a different grid with the
     # same length and end points (and the identical grid), then this one; a fresh Transformer must give the same bits
     x2 = confusable(x)
